@@ -99,6 +99,16 @@ def multiFlagsFrom : MLState → List Line → List Bool
 
 def multiFlags (ls : List Line) : List Bool := multiFlagsFrom .init ls
 
+/-- `if stripspace is None and re.search(r"^[ \t]*[^# \t]", line): stripspace = re.match(r"^([ \t]*)", line).group(1)` -/
+def nextMargin (m : Option Line) (l' : Line) : Option Line :=
+  match m with
+  | some x => some x
+  | none => if isCodeLine l' then some (margin l') else none
+
+@[simp] theorem nextMargin_some (M l' : Line) : nextMargin (some M) l' = some M := rfl
+@[simp] theorem nextMargin_none (l' : Line) :
+    nextMargin none l' = if isCodeLine l' then some (margin l') else none := rfl
+
 /-- the loop of `adjust_whitespace`; `m` = `stripspace` -/
 def adjustLoop : MLState → Option Line → List Line → List Line
   | _, _, [] => []
@@ -106,9 +116,7 @@ def adjustLoop : MLState → Option Line → List Line → List Line
     if (stepLine st l).1 then l :: adjustLoop (stepLine st l).2 m r
     else
       let l' := expandTabs 0 l
-      let m' := match m with
-        | some x => some x
-        | none => if isCodeLine l' then some (margin l') else none
+      let m' := nextMargin m l'
       replaceMargin m' [] l' :: adjustLoop (stepLine st l).2 m' r
 
 /-- `pygen.adjust_whitespace(text)` -/
@@ -139,9 +147,7 @@ def flushLoop (ind : Line) : Bool × Bool → Option Line → List Line → List
     if (pStep st l).1 then l :: flushLoop ind (pStep st l).2 m r
     else
       let l' := expandTabs 0 l
-      let m' := match m with
-        | some x => some x
-        | none => if isCodeLine l' then some (margin l') else none
+      let m' := nextMargin m l'
       pIndentLine m' ind l' :: flushLoop ind (pStep st l).2 m' r
 
 /-- `write_indented_block(block)` followed by `_flush_adjusted_lines()` at indentation level `indent` -/
@@ -270,9 +276,62 @@ def remargin : List Bool → Option Line → List Line → List Line
     if inside then l :: remargin fs m ls
     else
       let l' := expandTabs 0 l
-      let m' := match m with
-        | some x => some x
-        | none => if isCodeLine l' then some (margin l') else none
+      let m' := nextMargin m l'
       replaceMargin m' [] l' :: remargin fs m' ls
+
+/-! ### the printer side: what `_in_multi_line` additionally gets wrong, and what re-indentation must do -/
+
+/-- `PythonPrinter._in_multi_line` counts the triple quotes of a line without looking at what they are.  On top of
+`lineHazard`, a line is outside the guard of `flush_adjusted_spec_partial` when (following the triple-quote state
+`t` at its start)
+* a comment contains three equal quote characters in a row, or
+* a triple-quoted literal contains the *other* kind of triple quote. -/
+def scanHazardP : Option Q → Line → Bool
+  | _, [] => false
+  | none, '#' :: r => countTriples r != 0
+  | none, '"' :: '"' :: '"' :: r => scanHazardP (some .dq) r
+  | none, '\'' :: '\'' :: '\'' :: r => scanHazardP (some .sq) r
+  | none, _ :: r => scanHazardP none r
+  | some .dq, '"' :: '"' :: '"' :: r => scanHazardP none r
+  | some .sq, '\'' :: '\'' :: '\'' :: r => scanHazardP none r
+  | some .dq, '\'' :: '\'' :: '\'' :: _ => true
+  | some .sq, '"' :: '"' :: '"' :: _ => true
+  | some q, _ :: r => scanHazardP (some q) r
+
+def printerHazardFreeFrom : Option Q → List Line → Bool
+  | _, [] => true
+  | t, l :: r => !scanHazardP t l && printerHazardFreeFrom (scanTriple t l) r
+
+/-- additional guard of `flush_adjusted_spec_partial` -/
+def printerHazardFree (ls : List Line) : Bool := printerHazardFreeFrom none ls
+
+/-- Re-indentation as the property reads it, *given* for each line whether it starts inside a string literal or
+after a backslash continuation: such lines are written untouched; every other line has its tabs expanded and, from
+the first code line on, the margin of that first code line replaced by the target indentation `ind` (a line that
+does not start with the margin is written as it is; with an empty margin `ind` is simply put in front). -/
+def reindent (ind : Line) : List Bool → Option Line → List Line → List Line
+  | _, _, [] => []
+  | [], _, ls => ls
+  | inside :: fs, m, l :: ls =>
+    if inside then l :: reindent ind fs m ls
+    else
+      let l' := expandTabs 0 l
+      let m' := nextMargin m l'
+      pIndentLine m' ind l' :: reindent ind fs m' ls
+
+/-- Lexer-side re-margining followed by printer-side re-indentation, as the property reads it (for blocks without
+TAB characters): a line inside a literal / after a continuation is reproduced untouched; blank and comment lines
+before the first code line are reproduced untouched; from the first code line on a line loses the margin of that
+first code line (if it starts with it) and gets the target indentation `ind` in front. -/
+def roundtrip (ind : Line) : List Bool → Option Line → List Line → List Line
+  | _, _, [] => []
+  | [], _, ls => ls
+  | inside :: fs, m, l :: ls =>
+    if inside then l :: roundtrip ind fs m ls
+    else
+      let m' := nextMargin m l
+      (match m' with
+       | none => l
+       | some _ => ind ++ replaceMargin m' [] l) :: roundtrip ind fs m' ls
 
 end MakoModel.PyExpr.Ws.Spec
